@@ -109,6 +109,30 @@ def err_to_ok(facts, scope=None):
             r_ok = switch_edges_for_variant(b, sb, "Ok")
             if not r_err or not r_ok:
                 continue
+            # the error is *discarded* on its edge — nothing downstream reads the Err payload of the tested place
+            # (`if let Ok(Some(op)) = parse(v) { return … }` falls through to the code after it) — and that code can
+            # return a success: the failure is silently turned into whatever follows
+            place_l = None
+            for st in b.blocks[sb]["stmts"]:
+                if st["k"] == "Assign" and st["rv"]["k"] == "Discriminant" and not st["rv"]["place"]["proj"]:
+                    place_l = st["rv"]["place"]["local"]
+            if place_l is not None:
+                down = b.reachable(r_err[0])
+                reads_payload = False
+                returns_ok = None
+                import json as _json
+                for bi in sorted(down):
+                    blk = b.blocks[bi]
+                    txt = _json.dumps(blk["stmts"]) + _json.dumps({k_: v_ for k_, v_ in blk["term"].items() if k_ in ("args", "discr", "func")})
+                    if ('"local": %d, "proj": [{"k": "Downcast"' % place_l) in txt and '"Err"' in txt:
+                        reads_payload = True
+                    for si, st in enumerate(blk["stmts"]):
+                        if st["k"] == "Assign" and st["place"]["local"] == 0 and not st["place"]["proj"] and st["rv"]["k"] == "Aggregate" and st["rv"].get("variant") == "Ok" and "Result" in (st["rv"].get("adt") or "Result") and returns_ok is None:
+                            returns_ok = (bi, si)
+                moved_whole = any(('"k": "Move", "place": {"local": %d, "proj": []}' % place_l) in _json.dumps(b.blocks[bi]) for bi in down)
+                if not reads_payload and not moved_whole and returns_ok is not None and returns_ok[0] not in (b.reachable(r_ok[0]) - down):
+                    out.append((b, returns_ok[0], returns_ok[1], "the Err case of the test at bb%d is neither propagated nor looked at, and the code that follows returns Ok(..)" % sb))
+                    continue
             region = b.reachable(r_err[0]) - b.reachable(r_ok[0])
             for bi in sorted(region | {r_err[0]}):
                 for si, st in enumerate(b.blocks[bi]["stmts"]):
